@@ -2,7 +2,7 @@
 from props import schedcommon as sc
 
 PROPERTY = 'C02'
-THEOREMS = ['Sched.final_status_eq_spec', 'Sched.schedule_independent', 'Sched.soft_never_blocks', 'Sched.InvB_step', 'Sched.InvB_init', 'Sched.spec_eq']
+THEOREMS = ['Sched.final_status_eq_spec', 'Sched.schedule_independent', 'Sched.soft_never_blocks', 'Sched.InvB_step', 'Sched.InvB_init', 'Sched.spec_eq', 'Sched.exec_at_most_once', 'Sched.exec_count_eq_spec', 'Sched.InvE_step']
 BUDGET = {'quick': 700, 'thorough': 6000}
 TIME_LIMIT = {'quick': 55, 'thorough': 700}
 RULE = ('single runs from an empty environment' + '; the real QueueScheduling backend runs under the controlled scheduler; non-trivial = '
